@@ -235,3 +235,21 @@ def k17_find_path(ctx) -> None:
         ctx.ok("K17", "the search stops when the path ends at the second label")
     else:
         ctx.violation("K17", f, "find_path must stop exactly when the path's end is the second label", construct=f"{DB}.find_path stop")
+    # what is handed back is the path the search found, or a single recorded edge in its own direction
+    pops = {t.id for n in walk_local(f) for t, v in [PT.assign_value(n)] if isinstance(t, ast.Name) and isinstance(v, ast.Call)
+            and isinstance(v.func, ast.Attribute) and v.func.attr in ("popleft", "pop")}
+    for r in C.returns_of(f):
+        if r.value is None:
+            continue
+        v = r.value
+        if isinstance(v, ast.Name) and v.id in pops:
+            ctx.ok("K17", "find_path returns the path the search stopped at")
+        elif isinstance(v, ast.Tuple) and len(v.elts) == 2 and [norm(e) for e in v.elts] == [a, b] \
+                and any(p and t in (f"{b} in self.vertices[{a}]", f"{b} in self.vertices.get({a}, ())") for t, p in C.guard_texts(f, r)):
+            ctx.ok("K17", "find_path returns a direct edge only when it is recorded in that direction")
+        elif isinstance(v, ast.Tuple) and len(v.elts) == 1 and norm(v.elts[0]) == a and any(p and t in (f"{a} == {b}", f"{b} == {a}") for t, p in C.guard_texts(f, r)):
+            ctx.ok("K17", "find_path returns the trivial path for equal labels")
+        else:
+            ctx.violation("K17", r, f"find_path returns `{norm(v)}`, which is neither the path found by the search nor an edge recorded from `{a}` to `{b}`: the explanation "
+                          "is replayed rule by rule, and a step that was never recorded in that direction has no rule")
+
